@@ -1,8 +1,14 @@
 """C09 Prior transitions are the exact discretisation of their SDE and compose."""
-from contracts import priors
+from contracts import exp_priors, priors
 
 LEVEL = "proof"
 
 
 def contracts():
-    return priors.contracts()
+    return priors.contracts() + exp_priors.contracts()
+
+
+def extra_checks(tier, seed):
+    from contracts import pade_orders
+
+    return pade_orders.extra_checks(tier, seed)
